@@ -179,8 +179,65 @@ func classifyLoop(p *core.Prog, fn *ssa.Function, h *ssa.BasicBlock, body map[*s
 	if k, w := classifyBudget(p, h, body); k != "" {
 		return k, w
 	}
+	if k, w := classifyCut(p, h, body); k != "" {
+		return k, w
+	}
 	// range-over-func bodies and others are handled by callers
 	return "", "no termination variant recognised"
+}
+
+// classifyCut: `for more { before, rest, more = strings.Cut(rest, sep) ... }`
+// with a non-empty constant separator: the loop goes round again only when the
+// separator was found, and then the remainder is strictly shorter than the
+// string that was cut.
+func classifyCut(p *core.Prog, h *ssa.BasicBlock, body map[*ssa.BasicBlock]bool) (string, string) {
+	iff, ok := h.Instrs[len(h.Instrs)-1].(*ssa.If)
+	if !ok || !body[h.Succs[0]] || body[h.Succs[1]] {
+		return "", ""
+	}
+	more, ok := iff.Cond.(*ssa.Phi)
+	if !ok || more.Block() != h {
+		return "", ""
+	}
+	var cut *ssa.Call
+	for i, e := range more.Edges {
+		if !body[h.Preds[i]] {
+			continue
+		}
+		ex, ok := e.(*ssa.Extract)
+		if !ok || ex.Index != 2 {
+			return "", ""
+		}
+		c, ok := ex.Tuple.(*ssa.Call)
+		if !ok || (cut != nil && cut != c) {
+			return "", ""
+		}
+		if name := p.X(c).Name; name != "strings.Cut" && name != "bytes.Cut" {
+			return "", ""
+		}
+		cut = c
+	}
+	if cut == nil {
+		return "", ""
+	}
+	sep, ok := cut.Call.Args[1].(*ssa.Const)
+	if !ok || sep.Value == nil || len(sep.Value.ExactString()) <= 2 { // "" quoted
+		return "", ""
+	}
+	rest, ok := cut.Call.Args[0].(*ssa.Phi)
+	if !ok || rest.Block() != h {
+		return "", ""
+	}
+	for i, e := range rest.Edges {
+		if !body[h.Preds[i]] {
+			continue
+		}
+		ex, ok := e.(*ssa.Extract)
+		if !ok || ex.Index != 1 || ex.Tuple != ssa.Value(cut) {
+			return "", ""
+		}
+	}
+	return "shrink", fmt.Sprintf("the loop continues only while %s finds the separator, and each round cuts the remainder it left: the remainder gets strictly shorter", p.X(cut).Name)
 }
 
 // inductionPhi accepts the two shapes go/ssa produces: φ{start, φ+c} tested
